@@ -154,7 +154,8 @@ def infoOf (clockView : Nat → Option (Clock α)) (mods : ModStore (SysMod α))
 /-- the `Info` sounds, effects and tracks see during the mixer pass -/
 def mixInfo (e : SysEnv α) : Info α := infoOf (fun id => e.clocks.lookup id) e.mods
 
-/-- mirrors: `Clocks::on_start_processing`, `Modulators::on_start_processing` (remove the dropped ones,
+/-- mirrors: backend/resources/clocks.rs::Clocks::on_start_processing, backend/resources/modulators.rs::Modulators::on_start_processing, backend/resources.rs::SelfReferentialResourceStorage::remove_and_add
+    (remove the dropped ones,
     append the new ones in creation order, read the command slots) -/
 def start (e : SysEnv α) : SysEnv α :=
   { e with
@@ -164,13 +165,15 @@ def start (e : SysEnv α) : SysEnv α :=
     mods := ((e.mods.filter (fun p => !p.2.removed)) ++ e.newMods).map (fun p => (p.1, p.2.onStart))
     newMods := [] }
 
-/-- mirrors: `Clocks::update` after `Modulators::process` (Model/ClockSys.lean::Sys.updateClocks with the
+/-- mirrors: backend/resources/clocks.rs::Clocks::update, backend/resources.rs::SelfReferentialResourceStorage::for_each
+    (after `Modulators::process`; Model/ClockSys.lean `Sys.updateClocks` with the
     general modulator store) -/
 def updateClocks (fuel : Nat) (clocks : List (Nat × Clock α)) (mods : ModStore (SysMod α)) (dt : α) :
     Option (List (Nat × Clock α)) :=
   forEachSelfRef Clock.dummy (fun c view => (c.update fuel dt (infoOf view mods)).map (·.1)) [] clocks
 
-/-- mirrors: the head of `Renderer::process_chunk`: `modulators.process(dt·n, &clocks)` (clocks not yet
+/-- mirrors: backend/renderer.rs::Renderer::process_chunk, backend/resources/modulators.rs::Modulators::process
+    (the head of `process_chunk`: `modulators.process(dt·n, &clocks)` (clocks not yet
     updated), then `clocks.update(dt·n, &modulators)` (modulators already updated) -/
 def step (fuel : Nat) (e : SysEnv α) (dt : α) : SysEnv α :=
   let mods := (ModStore.process SysMod.ops e.mods dt (infoOf (fun id => e.clocks.lookup id) [])).1
@@ -201,7 +204,8 @@ def mapCompsList (fs : S → S) (fe : E → E) : List (Trk α S E P) → List (T
 end
 
 mutual
-/-- mirrors: track/sub.rs::Track::on_change_sample_rate / init_effects — the effects of this track and of
+/-- mirrors: track/sub.rs::Track::on_change_sample_rate, track/sub.rs::Track::init_effects
+    — the effects of this track and of
     the sub-tracks that are in the ARENA (`for (_, sub_track) in &mut self.sub_tracks`); sub-tracks still
     in the new-resource ring are not reached -/
 def mapArenaFx (f : E → E) : Trk α S E P → Trk α S E P
@@ -244,13 +248,14 @@ def SendTrk.buildV {E : Type} (id : Nat) (volume : Value α α) (effects : List 
 namespace Mixer
 variable {S E P : Type}
 
-/-- mirrors: Mixer::new with a `Value` main-track volume (track/main/builder.rs) -/
+/-- mirrors: backend/resources/mixer.rs::Mixer::new, track/main/builder.rs::MainTrackBuilder::build (a `Value` main-track volume) -/
 def newV (mainVolume : Value α α) (mainEffects : List E) (ibs : Nat) : Mixer α S E P :=
   { main := { volume := Parameter.new mainVolume Psm.identityDb, sounds := [], pendingSounds := [],
               effects := mainEffects, temp := zeros ibs, cmdVolume := none },
     subTracks := [], pendingSubTracks := [], sendTracks := [], pendingSendTracks := [], temp := zeros ibs }
 
-/-- mirrors: backend/resources/mixer.rs::Mixer::on_change_sample_rate — main track, sub-tracks in the
+/-- mirrors: backend/resources/mixer.rs::Mixer::on_change_sample_rate, track/main.rs::MainTrack::on_change_sample_rate, track/send.rs::SendTrack::on_change_sample_rate
+    — main track, sub-tracks in the
     arena (recursively, arenas only), send tracks in the arena; tracks still in a ring keep the rate they
     were initialised with (the recorded finding `C16-track-in-flight-keeps-old-rate`) -/
 def mapArenaFx (f : E → E) (m : Mixer α S E P) : Mixer α S E P :=
@@ -375,7 +380,8 @@ variable {n : Nat}
 abbrev C (s : System α n) : Comps α (SysSnd α) (SysFx α n) Unit := sysComps s.fuel n
 abbrev V (s : System α n) : EnvOps α (SysEnv α) := SysEnv.envOps s.fuel
 
-/-- mirrors: AudioManager::new → Renderer::new + Mixer::new (`main_track.init_effects(sample_rate)`) -/
+/-- mirrors: manager.rs::AudioManager::new, backend/renderer.rs::Renderer::new, backend/resources/mixer.rs::Mixer::new, track/main.rs::MainTrack::init_effects
+    (`main_track.init_effects(sample_rate)`) -/
 def new (fuel ibs sr : Nat) (mainVolume : Value α α) (mainEffects : List (SysFx α n)) : System α n :=
   { r := { dt := (1.0 : α) / (KOps.ofNat sr : α)
            mixer := Mixer.newV mainVolume (mainEffects.map (SysFx.init sr ibs)) ibs
@@ -392,7 +398,8 @@ def fault (s : System α n) : Option SysFault :=
     | some f => some (.effect f)
     | none => if s.r.env.hung then some .clockHang else none
 
-/-- mirrors: one device callback: `Renderer::on_start_processing` then `Renderer::process` on a buffer
+/-- mirrors: backend/renderer.rs::Renderer::on_start_processing, backend/renderer.rs::Renderer::process
+    (one device callback: `on_start_processing` then `process` on a buffer
     of `frames * channels` samples -/
 def callback (s : System α n) (frames channels : Nat) : Except SysFault (System α n × List α) :=
   let r1 := s.r.onStart s.C s.V
@@ -404,7 +411,7 @@ def callback (s : System α n) (frames channels : Nat) : Except SysFault (System
     | some f => .error f
     | none => .ok (s2, samples)
 
-/-- mirrors: Renderer::on_change_sample_rate -/
+/-- mirrors: backend/renderer.rs::Renderer::on_change_sample_rate -/
 def changeRate (s : System α n) (sr : Nat) : System α n :=
   { s with sampleRate := sr
            r := { s.r with dt := (1.0 : α) / (KOps.ofNat sr : α)
@@ -415,7 +422,8 @@ def withMixer (s : System α n) (f : Mixer α (SysSnd α) (SysFx α n) Unit → 
 
 def withEnv (s : System α n) (f : SysEnv α → SysEnv α) : System α n := { s with r := { s.r with env := f s.r.env } }
 
-/-- mirrors: AudioManager::add_sub_track / TrackHandle::add_sub_track: build, `init_effects` with the
+/-- mirrors: manager.rs::AudioManager::add_sub_track, track/sub/handle.rs::TrackHandle::add_sub_track, track/sub.rs::Track::init_effects
+    (build, `init_effects` with the
     sample rate in force now, push into the parent's ring -/
 def addSubTrack (s : System α n) (parent : Option Nat) (id : Nat) (volume : Value α α)
     (effects : List (SysFx α n)) (sends : List (Nat × Value α α)) (persist : Bool) : System α n :=
@@ -425,12 +433,13 @@ def addSubTrack (s : System α n) (parent : Option Nat) (id : Nat) (volume : Val
   | none => s.withMixer (Mixer.hAddSubTrack t)
   | some p => s.withMixer (Mixer.mapTrack p (Trk.hAddSubTrack t))
 
-/-- mirrors: AudioManager::add_send_track -/
+/-- mirrors: manager.rs::AudioManager::add_send_track, track/send.rs::SendTrack::init_effects -/
 def addSendTrack (s : System α n) (id : Nat) (volume : Value α α) (effects : List (SysFx α n)) : System α n :=
   s.withMixer (Mixer.hAddSendTrack
     (SendTrk.buildV id volume (effects.map (SysFx.init s.sampleRate s.r.ibs)) s.r.ibs))
 
-/-- mirrors: AudioManager::play / TrackHandle::play with a `StaticSoundData` (`into_sound` runs
+/-- mirrors: manager.rs::AudioManager::play, track/sub/handle.rs::TrackHandle::play, track/main/handle.rs::MainTrackHandle::play
+    (with a `StaticSoundData`; `into_sound` runs
     `StaticSound::new` on the caller's thread: a fault there is the caller's panic) -/
 def play (s : System α n) (track : Option Nat) (id : Nat) (d : StaticSoundData α) : Except Fault (System α n) :=
   match StaticSound.new d with
@@ -449,7 +458,7 @@ def soundCommand (s : System α n) (sid : Nat) (c : Command α) : System α n :=
 def fxCommand (s : System α n) (eid : Nat) (c : FxCmd α) : System α n :=
   s.withMixer (Mixer.mapComps (fun x => x) (fun e => if e.id = eid then { e with fx := FxN.command c n e.fx } else e))
 
-/-- mirrors: AudioManager::add_clock -/
+/-- mirrors: manager.rs::AudioManager::add_clock -/
 def addClock (s : System α n) (id : Nat) (speed : Value α (ClockSpeed α)) : System α n :=
   s.withEnv (fun e => { e with newClocks := e.newClocks ++ [(id, Clock.new speed)] })
 
@@ -458,7 +467,7 @@ def clockCommand (s : System α n) (id : Nat) (c : HCmd α) : System α n :=
   s.withEnv (fun e => { e with clocks := mapKey id (fun k => c.apply k) e.clocks,
                                newClocks := mapKey id (fun k => c.apply k) e.newClocks })
 
-/-- mirrors: AudioManager::add_modulator -/
+/-- mirrors: manager.rs::AudioManager::add_modulator -/
 def addModulator (s : System α n) (id : Nat) (m : Mod α) : System α n :=
   s.withEnv (fun e => { e with newMods := e.newMods ++ [(id, ⟨m, {}, none, false⟩)] })
 
